@@ -413,4 +413,24 @@ COMMON_ASSUMPTIONS = [
     "reference semantics written from docs/source/reference.rst",
     "sampling: a clean batch is evidence, not proof",
 ]
-ASSUMPTIONS = {}
+_MP = [
+    "workers are run eagerly to completion and their message streams replayed: exact because workers share nothing and "
+    "receive nothing; the simulator owns merge order, availability times, op latency, pipe capacity, late pickling and "
+    "where a stream is cut by death",
+    "the fakes model message-granular behaviour of pipes and process exit, not torn writes or OS resource exhaustion; "
+    "validated against real multiprocessing by ./check selftest-stub-conformance",
+]
+ASSUMPTIONS = {
+    "C01": _MP, "C02": _MP, "C03": _MP, "C11": _MP, "C12": _MP, "C17": _MP, "C18": _MP + [
+        "a death is an exception at a put (flushes what was enqueued) or a kill (0-2 unflushed messages lost); message "
+        "duplication / loss without a crash / reordering within one stream are not injected: a pipe cannot do them",
+        "liveness oracle in virtual time: SimDeadlock = blocking get/join that can never return, or polling that goes "
+        "on 10 virtual minutes after the last worker exited",
+    ],
+    "C04": ["termination is judged by a simulated-step budget two orders of magnitude above what terminating runs of the scope use (largest used/budget ratio reported in probes.max_budget_ratio_ppm)"],
+    "C08": ["clause 3 is decided on constraint types: models made only of the types listed as bound-consistent, no shared domain twice in one constraint"],
+    "C15": ["compiled runs use a per-tree numba cache under /verif/.cache; clean-room = fresh interpreter executing only the operation's own dependency chain"],
+    "C16": ["monitor-strength claim: numpy bounds checks in interpreted mode; negative indices wrap silently in both modes and surface as wrong answers under C02 instead"],
+    "C19": ["each point runs compiled in a sacrificial interpreter and once interpreted; numpy's own IndexError / OverflowError count as 'raises an error'"],
+    "C20": ["known counts: literature (queens, latin squares, magic squares, Golomb optima, Schur number) or brute force over the definition in sim/modelworker.py; known objects from explicit constructions validated by the same validators"],
+}
